@@ -22,6 +22,7 @@ import (
 	"encoding/base64"
 	"encoding/json"
 	"io"
+	"slices"
 
 	rspb "helm.sh/helm/v4/pkg/release/v1"
 )
@@ -83,6 +84,8 @@ func decodeRelease(data string) (*rspb.Release, error) {
 	if err := json.Unmarshal(b, &rls); err != nil {
 		return nil, err
 	}
+	// a null entry in the hook list would be dereferenced by every reader of the release
+	rls.Hooks = slices.DeleteFunc(rls.Hooks, func(h *rspb.Hook) bool { return h == nil })
 	return &rls, nil
 }
 
